@@ -10,4 +10,8 @@ Lane2 == [t \in 1..2 |-> 1]
 Prod2 == [t \in 1..2 |-> "a"]
 NoPanics2 == [t \in 1..2 |-> "none"]
 BothPanic2 == (1 :> "str:boom") @@ (2 :> "err:io")
+\* 4 tasks, 3 producers, 3 lanes: a pushes 1,2 to lane 1; b pushes 3 to lane 2; c pushes 4 to lane 3; task 2 panics
+Lane4 == (1 :> 1) @@ (2 :> 1) @@ (3 :> 2) @@ (4 :> 3)
+Prod4 == (1 :> "a") @@ (2 :> "a") @@ (3 :> "b") @@ (4 :> "c")
+Panics4 == (1 :> "none") @@ (2 :> "str:boom") @@ (3 :> "none") @@ (4 :> "err:io")
 =============================================================================
